@@ -7,6 +7,7 @@
 //! PowerFlow.tla's invariants on them (PowerFlowTrace.tla).
 //!
 //! Case descriptor (emitted by MCPowerFlow.tla or by `gen`), every quantity Q-encoded:
+//! ("assert" = Locomotive.assert_limits: false = the unit runs without limit checking)
 //! {"cfg":{"kind":"conv"|"bel","rfc","rgen","redrv","rres","floor","lag","aux","auxkd","idle",
 //!         "kf","kg","ke","kr","flat","cap","smin","slo","shi","smax","delta","ps","ds","lat","assert",
 //!         "pb0","haux","split2","gssr","gssk"},   kind "hyb" = HybridLoco (fc + gen + res + edrv)
@@ -14,6 +15,8 @@
 //!  "maps":{..build::loco map parameters, floats..}?, "temp":..?}
 //! power = q/ps W, dt = dtq/ds s, energy = q/(ps*ds) J, soc = soc_q/cap_q.
 //!
+//! A case with "train":{"cars","car_mass","v0","dv":[..]} is run at train level instead (exec_train): the unit alone in
+//! a consist pulls a train through SetSpeedTrainSim over a speed trace with the non-uniform time steps of "steps".
 //! Events: Pub{k,eng,dtq,pub{..},exact}  Solve{k,cls,req,acc,p{..},e{..},eta{..},soc,i,exact,msg}
 //!         WalkBegin, then one Pub + Solve pair per history entry ("walk":true), WalkEnd{ok,n,want};  Nan / Overflow{at}
 use altrios_core::consist::locomotive::loco_sim::{LocomotiveSimulation, PowerTrace};
@@ -363,6 +366,7 @@ fn materialise(cls: &str, l: &Locomotive, redrv: f64, delta: f64) -> f64 {
         "o2" => pb + pb / 32.0, // further above the published limit: + 3 %, + 6 %, + 12 %
         "o4" => pb + pb / 16.0,
         "o8" => pb + pb / 8.0,
+        "dbl" => 2.0 * pb, // twice the published limit: what a unit without limit checking may be driven with
         "regenm" => -rg + delta,
         "regen" => -rg,
         "regenp" => -rg - delta,
@@ -389,6 +393,9 @@ fn exec(desc: &Value, tr: &mut Tracer) -> anyhow::Result<()> {
     let redrv = gf(c, "redrv") / sc.ps;
     let delta = gf(c, "delta") / sc.ps;
     let mut l = build_unit(desc, &params, &sc)?;
+    if desc.get("train").map_or(false, |t| t.is_object()) {
+        return exec_train(desc, tr, l, &sc);
+    }
     let fresh = l.clone();
     let base = tr.lines; // events of this case are at line(begin) + (tr.lines - base) + 1 when emitted
     // ---- call by call, like LocomotiveSimulation::solve_step (loco_sim.rs:226)
@@ -410,7 +417,7 @@ fn exec(desc: &Value, tr: &mut Tracer) -> anyhow::Result<()> {
             tr.emit(json!({"ev": if pr.nan {"Nan"} else {"Overflow"}, "at":"Pub","k":k+1}));
             return Ok(());
         }
-        tr.emit(json!({"ev":"Pub","walk":false,"k":k+1,"eng":eng,"dtq":dtq,"pub":pb,"exact":pr.exact()}));
+        tr.emit(json!({"ev":"Pub","walk":false,"tr":false,"k":k+1,"eng":eng,"dtq":dtq,"pub":pb,"exact":pr.exact()}));
         let req = materialise(cls, &l, redrv, delta);
         let soc_prev = snap_live(&l).and_then(|x| x.res.map(|r| r.soc.value)).unwrap_or(0.0);
         let save = l.clone();
@@ -427,7 +434,7 @@ fn exec(desc: &Value, tr: &mut Tracer) -> anyhow::Result<()> {
                     return Ok(());
                 }
                 accepted.push((dt, req, eng, dtq, tr.lines - base + 1));
-                tr.emit(json!({"ev":"Solve","walk":false,"k":k+1,"ref":0,"cls":cls,"req":reqq,"acc":true,"oog":oog(&sn, soc_prev, desc, &sc),"p":p,"e":e,"eta":eta,
+                tr.emit(json!({"ev":"Solve","walk":false,"tr":false,"k":k+1,"ref":0,"cls":cls,"req":reqq,"acc":true,"oog":oog(&sn, soc_prev, desc, &sc),"p":p,"e":e,"eta":eta,
                                "soc":soc,"i":l.state.i,"exact":pr.exact()}));
             }
             Err(e) => {
@@ -438,7 +445,7 @@ fn exec(desc: &Value, tr: &mut Tracer) -> anyhow::Result<()> {
                     tr.emit(json!({"ev": if pr.nan {"Nan"} else {"Overflow"}, "at":"Req","k":k+1}));
                     return Ok(());
                 }
-                tr.emit(json!({"ev":"Solve","walk":false,"k":k+1,"cls":cls,"req":reqq,"acc":false,"i":l.state.i,
+                tr.emit(json!({"ev":"Solve","walk":false,"tr":false,"k":k+1,"cls":cls,"req":reqq,"acc":false,"i":l.state.i,
                                "exact":pr.exact(),"msg":errtxt(&e)}));
             }
         }
@@ -469,13 +476,66 @@ fn exec(desc: &Value, tr: &mut Tracer) -> anyhow::Result<()> {
             tr.emit(json!({"ev": if pr.nan {"Nan"} else {"Overflow"}, "at":"Hist","k":k}));
             return Ok(());
         }
-        tr.emit(json!({"ev":"Pub","walk":true,"k":k,"eng":eng,"dtq":dtq,"pub":pb,"exact":pr.exact()}));
+        tr.emit(json!({"ev":"Pub","walk":true,"tr":false,"k":k,"eng":eng,"dtq":dtq,"pub":pb,"exact":pr.exact()}));
         let soc_prev = hs[k - 1].res.as_ref().map_or(0.0, |r| r.soc.value);
-        tr.emit(json!({"ev":"Solve","walk":true,"k":k,"ref":rf,"cls":"hist","req":reqq,"acc":true,"oog":oog(sn, soc_prev, desc, &sc),"p":p,"e":e,"eta":eta,
+        tr.emit(json!({"ev":"Solve","walk":true,"tr":false,"k":k,"ref":rf,"cls":"hist","req":reqq,"acc":true,"oog":oog(sn, soc_prev, desc, &sc),"p":p,"e":e,"eta":eta,
                        "soc":soc,"i":sn.loco.i,"exact":pr.exact()}));
     }
     tr.emit(json!({"ev":"WalkEnd","ok":wr.is_ok(),"n":hs.len().saturating_sub(1),"want":accepted.len(),
                    "msg": wr.err().map(|e| errtxt(&e)).unwrap_or_default()}));
+    Ok(())
+}
+
+/// Train-level pass: the unit alone in a consist, pulling a train through a real `SetSpeedTrainSim` over a speed trace
+/// whose time column has NON-UNIFORM steps (desc.steps[k].dt; speed rising by desc.train.dv[k]/64 m/s per step).
+/// After every `sim.step()` the unit's live component states still hold the limits published for that step and the
+/// powers solved in it: logged as a Pub + Solve pair like one entry of a walk's history ("tr":true).  `dtq` is the step
+/// size taken from the trace's TIME COLUMN, not from any state field of the simulation.
+fn exec_train(desc: &Value, tr: &mut Tracer, l: Locomotive, sc: &Sc) -> anyhow::Result<()> {
+    let t = &desc["train"];
+    let steps = ga(desc, "steps");
+    let dv = ga(t, "dv");
+    let mut time = vec![0.0];
+    let mut speed = vec![gf(t, "v0") / 64.0];
+    for (k, s) in steps.iter().enumerate() {
+        time.push(time[k] + gi(s, "dt") as f64 / sc.ds);
+        speed.push((speed[k] + dv[k].as_f64().unwrap_or(0.0) / 64.0).max(0.0));
+    }
+    let net = build::network(&json!({"links":[{"len":8192,"next":2,"rs":[[0,8192,64]]},
+                                              {"len":8192,"prev":1,"rs":[[0,8192,64]]}]}))?;
+    let tc = build::train_config(&json!({"n":gi(t,"cars"),"car_len":16.0,"car_mass":gf(t,"car_mass"),"axles":4,"brakes":1,
+        "vmax":64.0,"braking_ratio":0.125,"bearing":64.0,"rolling":0.001953125}))?;
+    let con = build::consist_of(vec![l], "Proportional", Some(1))?;
+    let tsb = TrainSimBuilder::new("t".into(), tc, con, None, None, None);
+    let mut sim = tsb.make_set_speed_train_sim(&net, [LinkIdx::new(1), LinkIdx::new(2)], SpeedTrace::new(time.clone(), speed, None), Some(1))?;
+    tr.emit(json!({"ev":"TrainBegin"}));
+    let mut done = 0;
+    let mut msg = String::new();
+    for k in 1..=steps.len() {
+        let soc_prev = snap_live(&sim.loco_con.loco_vec[0]).and_then(|x| x.res.map(|r| r.soc.value)).unwrap_or(0.0);
+        if let Err(e) = sim.step() {
+            msg = errtxt(&e);
+            break;
+        }
+        let lo = &sim.loco_con.loco_vec[0];
+        let sn = snap_live(lo).ok_or_else(|| anyhow::anyhow!("unsupported powertrain"))?;
+        let mut pr = Proj::new();
+        let pb = proj_pub(&sn, sc, &mut pr);
+        let (p, e, eta, soc) = proj_state(&sn, sc, &mut pr);
+        let reqq = pr.v(lo.state.pwr_out.value, sc.ps);
+        if pr.nan || pr.q.overflow {
+            tr.emit(json!({"ev": if pr.nan {"Nan"} else {"Overflow"}, "at":"Train","k":k}));
+            return Ok(());
+        }
+        let dtq = ((time[k] - time[k - 1]) * sc.ds).round() as i64;
+        let off = tr.lines; // unused by the trace spec for train records (no call-by-call counterpart)
+        let _ = off;
+        tr.emit(json!({"ev":"Pub","walk":true,"tr":true,"k":k,"eng":true,"dtq":dtq,"pub":pb,"exact":pr.exact()}));
+        tr.emit(json!({"ev":"Solve","walk":true,"tr":true,"k":k,"ref":0,"cls":"hist","req":reqq,"acc":true,"oog":oog(&sn, soc_prev, desc, sc),
+                       "p":p,"e":e,"eta":eta,"soc":soc,"i":lo.state.i,"exact":pr.exact()}));
+        done = k;
+    }
+    tr.emit(json!({"ev":"TrainEnd","ok":done == steps.len(),"n":done,"want":steps.len(),"msg":msg}));
     Ok(())
 }
 
@@ -575,17 +635,24 @@ fn gen(seed: u64, n: usize, tier: &str) -> Vec<Value> {
     ];
     for k in 0..n {
         let mut r = Rng::new(seed.wrapping_mul(1_000_003).wrapping_add(k as u64));
-        let kind = ["conv", "bel", "conv", "bel", "hyb", "hyb", "conv", "conv", "conv", "bel"][k % 10];
+        // train-level cases: a real-sized flat conventional unit pulling a train through SetSpeedTrainSim over a speed
+        // trace with NON-UNIFORM time steps (the limits of each step must be published for that step's own length)
+        let train = k % 10 == 7 && (k / 10) % 2 == 0; // (every other case of one of the three mapped-conventional residues)
+        let kind = if train { "conv" } else { ["conv", "bel", "conv", "bel", "hyb", "hyb", "conv", "conv", "conv", "bel"][k % 10] };
         let (bel, hyb) = (kind == "bel", kind == "hyb");
-        let flat = k % 10 < 2 || k % 10 == 4; // flat unit (Level B comparable on the lattice) / mapped unit
+        let flat = train || k % 10 < 2 || k % 10 == 4; // flat unit (Level B comparable on the lattice) / mapped unit
+        // limit checking off (Locomotive.assert_limits = false): a third of the flat conv / hybrid and of the mapped conv /
+        // bel units; their traction phases demand well above what was published (the only place where the mode differs)
+        let nolim = !train && (k / 10) % 3 == 1 && [0, 2, 3, 4, 6].contains(&(k % 10));
         // only the drivetrain has a (monotone) efficiency map, every other component is flat: the published wheel
         // limit is then a statement about ElectricDrivetrain::set_cur_pwr_max_out alone
-        let eonly = k % 10 >= 8;
+        let eonly = k % 10 >= 8 && !train;
         let ds = 4i64;
-        let um = if hyb { 1024i64 } else { 1 }; // hybrids are real-sized: their generator carries a hard-coded 50 kW
-        let steps_n = if hyb { r.range(6, maxsteps / 4 + 6) } else { r.range(8, maxsteps) };
+        let big = hyb || train; // real-sized units: a hybrid's generator carries a hard-coded 50 kW; a train needs pulling
+        let um = if big { 1024i64 } else { 1 };
+        let steps_n = if big { r.range(6, maxsteps / 4 + 6) } else { r.range(8, maxsteps) };
         // ratings in watts
-        let (rfc, rgen, redrv, rres) = if hyb {
+        let (rfc, rgen, redrv, rres) = if big {
             let f = *r.pick(&HYB);
             (f.0 * um, f.1 * um, f.2 * um, f.3 * um)
         } else if flat {
@@ -604,9 +671,9 @@ fn gen(seed: u64, n: usize, tier: &str) -> Vec<Value> {
         let bound = !flat && !hyb && (rfc * 4 == rgen || rgen * 4 == rfc || rres * 4 == redrv);
         let warm = !bel && (bound || r.chance(1, 3));
         let rmax = rfc.max(rres);
-        let dts: &[i64] = if hyb { &[1, 2, 2, 4, 4, 8] } else { &[1, 2, 2, 4, 4, 8, 16] };
+        let dts: &[i64] = if big { &[1, 2, 2, 4, 4, 8] } else { &[1, 2, 2, 4, 4, 8, 16] };
         // scale: cumulative fuel energy <= 4.2 * rating * dt_max * steps must stay below 2^28 units
-        let emax = 4.2 * rmax as f64 * (if hyb { 2.0 } else { 4.0 }) * steps_n as f64 + 1.0;
+        let emax = 4.2 * rmax as f64 * (if big { 2.0 } else { 4.0 }) * steps_n as f64 + 1.0;
         let mut ps = 65536i64;
         while (ps * ds) as f64 * emax >= (1u64 << 28) as f64 && ps > 1 {
             ps /= 2;
@@ -614,9 +681,11 @@ fn gen(seed: u64, n: usize, tier: &str) -> Vec<Value> {
         let es = ps * ds;
         let pick_k = |r: &mut Rng| *r.pick(&[1i64, 2, 4]);
         let (kf, kg, ke, kr) = (pick_k(&mut r), pick_k(&mut r), pick_k(&mut r), pick_k(&mut r));
-        let lag = if flat { *r.pick(&[2i64, 4, 16]) } else if bound { r.range(1, 4) } else { r.range(1, 30) };
+        let lag = if train { *r.pick(&[8i64, 16, 32]) } else if flat { *r.pick(&[2i64, 4, 16]) } else if bound { r.range(1, 4) } else { r.range(1, 30) };
         let floor_w = if flat || r.chance(1, 2) { rfc as f64 / 4.0 } else { rfc as f64 / 10.0 };
-        let aux_w = if hyb {
+        let aux_w = if train {
+            *r.pick(&[0.0, 4096.0, 8192.0])
+        } else if hyb {
             *r.pick(&[0.0, 8192.0, 50000.0])
         } else if flat {
             *r.pick(&[0.0, 2.0])
@@ -626,7 +695,7 @@ fn gen(seed: u64, n: usize, tier: &str) -> Vec<Value> {
             r.range(0, (rmax / 64).max(1)) as f64
         };
         let auxkd = if hyb { 0 } else { *r.pick(&[0i64, 0, 8, 32, 64]) };
-        let idle_w = if hyb { 4096.0 } else if flat { 4.0 } else { r.range(0, rfc / 32) as f64 };
+        let idle_w = if big { 4096.0 } else if flat { 4.0 } else { r.range(0, rfc / 32) as f64 };
         // battery: capacity such that the derating ramps are W = width * cap joules wide
         let cap_j = if flat { 16.0 * rres as f64 } else { (rres * *r.pick(&[8i64, 16, 64])) as f64 };
         let (smin, slo, shi, smax) = if flat || r.chance(1, 2) { (2, 6, 10, 14) } else { (1, 3, 12, 15) };
@@ -699,6 +768,7 @@ fn gen(seed: u64, n: usize, tier: &str) -> Vec<Value> {
             for _ in 0..len {
                 let dt = *r.pick(dts);
                 let (eng, cls): (bool, String) = match phase {
+                    0..=4 if nolim => (true, r.pick(&["pub", "over", "o2", "o4", "o8", "dbl", "dbl", "rate", "ratep", "f7", "f4"]).to_string()),
                     0..=3 if lpub == 1 => (true, r.pick(&["pub", "pubp", "over", "o2", "o4", "o8", "o2", "f7"]).to_string()),
                     0..=3 if riding => (true, r.pick(&["pub", "pub", "pubm", "pubp", "f7"]).to_string()),
                     0..=3 => (true, format!("f{}", r.range(0, 8))),
@@ -713,8 +783,21 @@ fn gen(seed: u64, n: usize, tier: &str) -> Vec<Value> {
             }
         }
         steps.truncate(steps_n as usize);
+        // train cases: the steps only carry the step sizes; the speed trace rises / holds / falls by dv[k]/64 m/s per step
+        // (accelerations up to 1/8 m/s^2 on a 4 x 32 t .. 8 x 64 t train: part load up to the unit's limits)
+        let mut trn = Value::Null;
+        if train {
+            let mut dv = vec![];
+            for s in steps.iter_mut() {
+                let dtq = s["dt"].as_i64().unwrap();
+                *s = json!({"eng":true,"dt":dtq,"cls":"trn"});
+                let a = *r.pick(&[0i64, 1, 2, 2, 4, 4, 8, -2, -4]); // acceleration in 1/64 m/s^2
+                dv.push(json!(a * dtq / ds)); // dv in 1/64 m/s (dt = dtq/ds s), floored
+            }
+            trn = json!({"cars": *r.pick(&[4i64, 8]), "car_mass": *r.pick(&[32768i64, 65536]), "v0": r.range(0, 4) * 64, "dv": dv});
+        }
         let q = |w: f64| (w * ps as f64).round() as i64;
-        let delta = if hyb { 2 * ps } else { (ps / 16).max(1) };
+        let delta = if big { 2 * ps } else { (ps / 16).max(1) };
         let cfg = json!({
             "kind": kind,
             "rfc": q(rfc as f64), "rgen": q(rgen as f64), "redrv": q(redrv as f64), "rres": q(rres as f64),
@@ -722,7 +805,7 @@ fn gen(seed: u64, n: usize, tier: &str) -> Vec<Value> {
             "kf": keff.0, "kg": keff.1, "ke": keff.2, "kr": keff.3, "flat": flat,
             "cap": cap_q as i64, "smin": (cap_q as i64 / 16) * smin, "slo": (cap_q as i64 / 16) * slo,
             "shi": (cap_q as i64 / 16) * shi, "smax": (cap_q as i64 / 16) * smax,
-            "delta": delta, "ps": ps, "ds": ds, "lat": flat && !gss && (hyb || ps >= 16), "assert": true,
+            "delta": delta, "ps": ps, "ds": ds, "lat": flat && !gss && (hyb || ps >= 16), "assert": !nolim,
             "pb0": if warm { q(rfc as f64) } else { 0 }, "haux": if hyb { 50000 * ps } else { 0 }, "split2": split2,
             "gssr": gssr, "gssk": gssk,
             // design facts of the maps (code-independent): grid of fc / gen / edrv does not reach 0 (lo) / 1 (hi); which
@@ -732,6 +815,9 @@ fn gen(seed: u64, n: usize, tier: &str) -> Vec<Value> {
             "bnd": bnd, "rtout": if maps.contains_key("res_grid") { if temp < 0.0 { -1 } else if temp > 40.0 { 1 } else { 0 } } else { 0 }});
         let mut d = json!({"src":"gen","seed":seed,"k":k,"cfg":cfg,
             "soc0": if bel || hyb { (cap_q as i64 / 16) * soc16 } else { 0 },"steps":steps});
+        if train {
+            d["train"] = trn;
+        }
         if !flat {
             d["temp"] = json!(temp);
             d["maps"] = Value::Object(maps);
